@@ -254,3 +254,17 @@ Theorem C04_the_saved_location_table_is_read_back :
                   l_idx := Some (N.of_nat k + 1)%N; l_elev := l_elev l; l_oid := 0%N |}.
 Proof. exact saved_location_table_reads_back. Qed.
 Print Assumptions C04_the_saved_location_table_is_read_back.
+
+(* ... likewise the WHOLE emitted unit-property table *)
+Theorem C04_the_saved_unit_property_table_is_read_back :
+  forall cs v,
+    uprp_encode cs = Ok v ->
+    (forall c, In c cs -> length (c_vs c) = 6%nat /\ length (c_vu c) = 7%nat /\ length (c_flags c) = 5%nat) ->
+    exists cs', uprp_decode v = Ok cs' /\
+      forall k c slot, assocN_last (N.of_nat k + 1)%N (cby_idx cs) = Some c ->
+        nth_error (vlist "_cuwp_slots" v) k = Some slot -> cuwp_is_unused slot = false ->
+        assocN_last (N.of_nat k + 1)%N (cby_idx cs') =
+          Some {| c_hp := c_hp c; c_sh := c_sh c; c_en := c_en c; c_res := c_res c; c_hang := c_hang c; c_flags := c_flags c;
+                  c_vs := c_vs c; c_vu := c_vu c; c_unk := c_unk c; c_pad := c_pad c; c_idx := Some (N.of_nat k + 1)%N |}.
+Proof. exact saved_cuwp_table_reads_back. Qed.
+Print Assumptions C04_the_saved_unit_property_table_is_read_back.
